@@ -140,8 +140,13 @@ class SimWriter:
             self.closed = True
             if self.link.alive:
                 self.link.fifo[self.side].append(EOF)
-            # transport.close() -> connection_lost -> own reader sees EOF
+            # transport.close() -> connection_lost -> own reader sees EOF, senders waiting in drain() are woken
             self.loop.call_soon(self.link.readers[self.side].feed_eof)
+            ws, self.drain_waiters = self.drain_waiters, []
+            self.paused = False
+            for f in ws:
+                if not f.done():
+                    f.set_result(None)
 
     def is_closing(self):
         return self.closed
